@@ -28,7 +28,7 @@ ORDER_COLS = ["seqid", "source", "featuretype", "start", "end", "score", "strand
 CI = {"seqid": 0, "source": 1, "featuretype": 2, "start": 3, "end": 4, "score": 5, "strand": 6, "frame": 7}
 SEQIDS = ["chr1", "Chr1", "chr10", "chr9", "10", "9", "chrÄ", "2L"]
 TYPES = ["gene", "Gene", "exon", "CDS"]
-MANY_TYPES = TYPES + ["mRNA", "ncRNA", "tRNA", "intron", "UTR"]
+MANY_TYPES = TYPES + ["mRNA", "ncRNA", "tRNA", "intron", "UTR", "five prime UTR", "match,part"]  # a type is any text of column 3
 
 
 def budget(tier):
@@ -40,6 +40,8 @@ def budget(tier):
 def feat(rng, ident=None, types=TYPES):
     s = rng.choice([1, 1, 5, 10, 10, 100])
     e = s + rng.choice([0, 0, 4, 9, 90])
+    if s > 1 and rng.random() < 0.06:
+        e = s - 1  # a zero-length feature (insertion site), written start = end + 1: length 0, sorts before length 1
     attrs = [["ID", [ident]]] if ident else [["note", [rng.choice(["k", "j"])]]]
     if rng.random() < 0.3:
         attrs.append(["Name", [rng.choice(["n1", "N1", "né"])]])
